@@ -15,6 +15,14 @@ CLAIMS = {
          "The audit path is a finite control structure with constant tables, so its fail-closed behaviour is decided for every sequence of provider responses rather than sampled: return 0 only on the MATCH equality edge (other gating constants proven unreachable through the whitelist), all other returns non-zero constants, main maps err/status to a non-zero exit; stored results are constant ERROR, constant MATCH only on the no-high-risk edge, or the provider value only under sentinel-safe ∧ sentinel-ok ∧ provider-ok ∧ validator-ok; whitelist ⊆ {MATCH,SUSPICIOUS,LIE}; sentinel answers false on every error; HTTP success only under status==200 and role test; commit message reaches the payload only via json.Marshal*, truncated, between two delimiters filled from one crypto/rand nonce.",
          "Trusts go/types+go/ssa, encoding/json's string escaping, os.Exit. Does not decide the JSON-extraction regexes' behaviour on hostile text nor anything about the model.",
          "DESIGN.md §4 C13"),
+ "C07": ("who-may-call census of durable Pebble writes with argument provenance (pebble.Sync), per-mutation batch discipline (one batch, one commit outside loops, no mixed direct writes), key-prefix provenance in the chunked rebuild, must-pass-through for the schema write, typestate ordering with checked errors for the JSON save",
+         "Necessary structural conditions of crash atomicity, decided for every mutation API on every run: all durable writes carry pebble.Sync; each multi-key mutation is exactly one batch committed once; the rebuild never touches signature-record keys; the schema version is written only when absent and writable; the JSON store is replaced via same-directory temp → encode → Sync → Close → Rename with every step checked. These hold for every history and crash point because they are properties of the code's shape; the per-syscall crash behaviour itself and Pebble's WAL are trusted, not decided.",
+         "Trusts Pebble's batch atomicity and Sync durability, os.Rename atomicity within a directory, go/ssa.",
+         "DESIGN.md §4 C07"),
+ "C20": ("who-may-call (pebble.Open), check-every-element must-pass-through for the protected list, interprocedural value provenance (Abs ∧ successful EvalSymlinks on every phi input, followed through helper returns), enumerated boundary-aware containment idioms",
+         "Decides on the code's shape, for every path spelling, that the string compared against the protected list is the absolute, symlink-resolved location (path or deepest existing ancestor + remainder), that the comparison respects path-component boundaries, that the confirmed six directories are listed, and that pebble.Open (single production site) and any Stat of the path are reachable only after the whole list failed the test. linux/amd64 only (the GOOS test is folded).",
+         "Trusts filepath.Abs/EvalSymlinks/Join semantics; does not decide TOCTOU races or other operating systems.",
+         "DESIGN.md §4 C20"),
 }
 
 PENDING_REASON = "static check for this property is not armed yet in this revision of the machinery (see DESIGN.md §4 for the planned structural clauses); not claimed until its rules run silent on the tree and fire on their mutants"
